@@ -9,6 +9,12 @@ instruction groups of 1..6 instructions with one comment each, #LIST / #TABLE bl
 The skool file written here is itself projected with the skool-syntax projection and judged as tool "gen",
 so that the generator's use of the skool format (brace rules!) is not trusted either.
 
+#LIST / #TABLE blocks stand in every place the documentation allows them (skool-macros.rst): description, start,
+mid-block and end comment paragraphs, register descriptions and instruction-level comments. Behind a register
+name and in a comment field less than a description line is available; there the blocks are designed around
+that width (tables exactly a-3..a+3 wide, in the band up to line width - 2 and beyond it, with and without a :w
+column; list items and the text around a block ending at / just short of it) - see WCLS, placed_block.
+
 Nothing in this file decides a verdict: words are interned to integers (token text <-> id is injective per
 document), lines are measured, html is tokenised with html.parser; TLC compares.
 """
